@@ -3,13 +3,13 @@
 # For every defect recorded as "fixed" in known_findings.jsonl: take a scratch copy of /repo, revert that one fix
 # commit there (the original defect comes back, everything else stays repaired), check that the copy still passes the
 # repo's own tests, run the property's quick check against it and require a VIOLATION.  /repo is never touched.
-cd /verif
+cd "$(dirname "$0")/.."; V=$(pwd)
 export GOFLAGS=-mod=mod GOPROXY=off GOSUMDB=off GOTOOLCHAIN=local
 want=" $* "
 python3 - <<'PY' > /tmp/reverts.list
 import json
 seen=set()
-for l in open('/verif/known_findings.jsonl'):
+for l in open('known_findings.jsonl'):
     l=l.strip()
     if not l: continue
     k=json.loads(l)
@@ -26,7 +26,7 @@ while read prop commit; do
   if ! (cd "$D" && go build ./... 2>/dev/null); then echo "$prop $commit DOES-NOT-BUILD ($subj)"; rm -rf "$D"; continue; fi
   tests="tests-pass"
   (cd "$D" && go test -vet=off -count=1 -timeout 900s ./... >/dev/null 2>&1) || tests="TESTS-FAIL"
-  out=$(VERIF_REPO="$D" VERIF_BUILD="/verif/.build/revert-$prop" VERIF_BUDGET_S=5 ./check "$prop" quick 2>&1)
+  out=$(VERIF_REPO="$D" VERIF_BUILD="$V/.build/revert-$prop" VERIF_BUDGET_S=5 ./check "$prop" quick 2>&1)
   rc=$?
   key=$(echo "$out" | grep -E "^  key=" | head -1 | cut -c1-140)
   if [ $rc -eq 1 ]; then v=CAUGHT; else v="MISSED(rc=$rc)"; fi
